@@ -325,6 +325,10 @@ def analyse(case: Dict[str, Any], res: P.CaseResult, readers: List[int]) -> Tupl
             first = res.states[0]["rows"] or []
             last = res.states[-1]["rows"] or []
             removed = [v for v in first if v not in last]
+            wi_ = case["ops"].index(op)
+            if (res.outcomes.get(f"A{wi_}") or ("?",))[0] == "ok" and first and not removed:
+                viol.append(f"a delete+append transaction was acknowledged, its appended rows {new} are visible, but nothing it deleted is gone: "
+                            f"rows at the start {first}, at the end {last} (the transaction took effect in part)")
             for k, st in enumerate(res.states):
                 rows = st["rows"]
                 if rows is None:
@@ -340,7 +344,7 @@ def analyse(case: Dict[str, Any], res: P.CaseResult, readers: List[int]) -> Tupl
 
 def run(ctx) -> None:
     ctx.rule = ("schedules of 1-2 readers (each API with and without filter, two successive calls per handle) with 1-3 writers (append, "
-                "multi-append transaction, rollback, snapshot deletion), on tables with history and on tables without current "
+                "multi-append transaction, delete+append transaction alone and losing a race (retried), rollback, snapshot deletion), on tables with history and on tables without current "
                 "snapshot (first commit), at storage-operation granularity (pointer reads, manifest reads, data "
                 "file reads, all writer protocol steps); bounded-preemption enumeration + random; distinct = executed schedule")
     ctx.trusted_base += ["harness/lib/sched.py, protocol.py (per-flip table content recorded by an independent reader)"]
@@ -477,6 +481,30 @@ def _schedules(ctx) -> None:
         for v in viol:
             ctx.violation(f"reader-replace-txn:{api}", v, {"case": c01._case_json(case), "deviations": [("alternate", "A0", "A1")], "schedule": res.schedule})
         bad_all.extend(bad)
+    # ... and a delete+append transaction that LOSES the race: another writer's whole commit lands between two consecutive
+    # steps of the transaction (after it read its base, before its commit validates it), so the library retries it on the
+    # new base; every attempt must carry the whole operation queue
+    for ai, api in enumerate(APIS):
+        if quick and ai % 3 != 2:
+            continue
+        ops = REPLACE_SET + [{"kind": "append", "rows": [{"x": 400}]}, {"kind": "read", "apis": [api] * 3}]
+        case = {"ops": ops, "clock": "tick", "topology": "separate", "yield_filter": reader_filter, "track_states": "pointer"}
+        probe = P.run_case(ctx.scratch, c01._fix_case(case), between_steps_chooser("A0", 10**6, ["A1", "A2"]), tag="c02q")
+        n0 = sum(1 for a in probe.schedule if a == "A0")
+        rs = list(range(1, n0 + 1))
+        retried = 0
+        for r in rs:
+            res = P.run_case(ctx.scratch, c01._fix_case(case), between_steps_chooser("A0", r, ["A1"]), tag="c02q")
+            total += 1
+            ctx.count(1, ("replace-contended", api, r))
+            # (a losing attempt is refused before it writes its metadata file: count the manifest lists it wrote)
+            retried += 1 if sum(1 for e in res.log if e["actor"] == "A0" and e["op"] in ("write_file", "write_file_cas") and P.path_class(e["path"]) == "mlist") > 1 else 0
+            viol, bad = analyse(case, res, [2])
+            for v in viol:
+                ctx.violation(f"reader-replace-txn-contended:{api}", v,
+                              {"case": c01._case_json(case), "deviations": [("between", "A0", r, ["A1"])], "schedule": res.schedule})
+            bad_all.extend(bad)
+        STATS["replace_txn_runs_in_which_the_transaction_was_retried"] = STATS.get("replace_txn_runs_in_which_the_transaction_was_retried", 0) + retried
     sec_s["replace_txn"] = round(_time.time() - t_sec, 1)
     t_sec = _time.time()
     # two writers on separate handles on a clock that does not advance (every timestamp-derived name and stamp collides unless
